@@ -279,6 +279,7 @@ def run(ctx):
     sec = assigned_values(fn, "section")
     ctx.ob("C12.R6", site, "the section looked up is the symbol's own section", any(norm(v) == "self.get_section(symbol.section)" for v in sec), construct="own-section")
     _name_index(ctx)
+    _owned_buffers(ctx)
 
 
 def _name_index(ctx):
@@ -304,3 +305,59 @@ def _name_index(ctx):
         ctx.ob("C12.R7", "%s:ObjectFile.%s" % (O, meth), "%s answers from that index" % meth, "self.symbol_map" in norm(f), construct="reads-index:" + meth)
     mg = ctx.fn(L, "Linker.merge_global_symbol")
     ctx.ob("C12.R7", L + ":Linker.merge_global_symbol", "(context) the linker decides define / complete / duplicate by has_symbol(name) and get_symbol(name)", "has_symbol(" in norm(mg) and "get_symbol(" in norm(mg), construct="linker-uses-index")
+
+
+FRESH_BUFFER = {"bytearray", "bytes", "asc2bin", "bytes.fromhex", "bytearray.fromhex"}
+
+
+def _owned_buffers(ctx):
+    """R8: the linker fills its output sections with Section.add_data(input_section.data) and then pads them and patches
+    relocations IN PLACE (section.data[a:b] = ...).  "Each input section's bytes unchanged" therefore needs every section
+    to own its buffer: `data` is only ever bound to a buffer created on the spot, and add_data grows that buffer - it
+    never adopts its argument (a second link of the same in-memory object would otherwise start from bytes that already
+    contain the first link's other inputs and patches)."""
+    ctx.rule("C12.R8", "every section owns its buffer: `.data` of a section is only bound to a freshly created buffer (bytearray()/bytes()/asc2bin() result or a concatenation), add_data grows the section's own buffer in place and never adopts its argument; in-place patching by the linker can then not reach an input object", floor=4)
+    n_assign = 0
+    for rel in ("ppci/binutils/objectfile.py", "ppci/binutils/linker.py", "ppci/binutils/outstream.py", "ppci/binutils/layout.py", "ppci/binutils/archive.py"):
+        mod = ctx.project.modules.get(rel)
+        if mod is None:
+            continue
+        for q, f in mod.defs.items():
+            if not isinstance(f, ast.FunctionDef):
+                continue
+            for n in walk_no_nested(f):
+                tgts = n.targets if isinstance(n, ast.Assign) else [n.target] if isinstance(n, (ast.AnnAssign, ast.AugAssign)) else []
+                for t in tgts:
+                    if not (isinstance(t, ast.Attribute) and t.attr == "data"):
+                        continue
+                    if isinstance(n, ast.AugAssign):
+                        ok, how = isinstance(n.op, ast.Add), "grown in place"
+                    else:
+                        v = n.value
+                        ok = (isinstance(v, ast.Call) and norm(v.func).split(".")[-1] in {x.split(".")[-1] for x in FRESH_BUFFER} and norm(v.func) in FRESH_BUFFER | {"self." + x for x in FRESH_BUFFER}) or (isinstance(v, ast.BinOp) and isinstance(v.op, ast.Add))
+                        how = norm(v)[:60]
+                    n_assign += 1
+                    ctx.ob("C12.R8", "%s:%s" % (rel, q), "`%s` is bound to a freshly created buffer (or grown in place)" % norm(t), ok, construct="owned:%s:%s" % (q, norm(t)), node=n, detail=how)
+    ctx.need(n_assign >= 2, "assignments to a section's data: %d found, 3 confirmed by reading (floor 2)" % n_assign)
+    ad = ctx.fn(O, "Section.add_data")
+    par = [a.arg for a in ad.args.args if a.arg != "self"][0]
+    body = [st for st in ad.body if not (isinstance(st, ast.Expr) and isinstance(st.value, ast.Constant))]
+    grows = [st for st in walk_no_nested(ad) if (isinstance(st, ast.AugAssign) and norm(st.target) == "self.data" and isinstance(st.op, ast.Add) and norm(st.value) == par)
+             or (isinstance(st, ast.Expr) and isinstance(st.value, ast.Call) and norm(st.value.func) == "self.data.extend" and norm(st.value.args[0]) == par)
+             or (isinstance(st, ast.Assign) and norm(st.targets[0]) == "self.data" and isinstance(st.value, ast.BinOp) and norm(st.value) == "self.data + " + par)]
+    harmless = {par, "len(%s)" % par, "len(%s) > 0" % par, "len(%s) != 0" % par}   # skipping the append of nothing changes nothing
+    cond = [a for g in grows for a in _anc12(g, ad) if isinstance(a, (ast.If, ast.Try, ast.For, ast.While)) and not (isinstance(a, ast.If) and norm(a.test) in harmless and g in a.body)]
+    ctx.ob("C12.R8", O + ":Section.add_data", "add_data appends the bytes to the section's own buffer on every path", len(grows) == 1 and not cond, construct="add-data-appends", detail="%d appending statement(s), %d of them conditional" % (len(grows), len(cond)))
+    # callers hand sections' buffers to add_data: that is only safe because of the copy above
+    lk = ctx.project.module("ppci/binutils/linker.py")
+    handed = [c for c in ast.walk(lk.tree) if isinstance(c, ast.Call) and isinstance(c.func, ast.Attribute) and c.func.attr == "add_data" and c.args and norm(c.args[0]).endswith(".data")]
+    ctx.ob("C12.R8", "ppci/binutils/linker.py", "the linker copies input contents through add_data (sites: %d)" % len(handed), len(handed) >= 2, construct="linker-uses-add-data")
+
+
+def _anc12(n, stop):
+    out = []
+    n = getattr(n, "_parent", None)
+    while n is not None and n is not stop:
+        out.append(n)
+        n = getattr(n, "_parent", None)
+    return out
